@@ -137,9 +137,26 @@ def apply_model(m: Model, op):
 # the real thing
 
 
-def apply_real(g, op):
-    """-> graph after the operation (possibly a new object)"""
+def apply_real(g, op, pool=None):
+    """-> graph after the operation (possibly a new object).  With a
+    ``pool`` (dict) descriptors of identical class / atoms / parity are one
+    shared Python object across the whole history."""
     name = op[0]
+
+    class _Mk:
+        @staticmethod
+        def mk_desc(d):
+            if pool is None:
+                return _rc_mk(d)
+            key = (d[0], tuple(d[1]), d[2])
+            if key not in pool:
+                pool[key] = _rc_mk(d)
+            return pool[key]
+
+        add_bond_real = staticmethod(_rc_add_bond)
+        change_enum = staticmethod(_rc_change_enum)
+
+    rc = _Mk      # noqa: F841  (shadows the module inside this function)
     if name == "add_atom":
         g.add_atom(op[1], op[2], **op[3])
     elif name == "remove_atom":
@@ -190,6 +207,43 @@ def apply_real(g, op):
     return g
 
 
+_rc_mk = rc.mk_desc
+_rc_add_bond = rc.add_bond_real
+_rc_change_enum = rc.change_enum
+
+
+def pre_use(g, k):
+    """read-only uses of a graph before the operation under test (their
+    results are discarded): 1 hash, 2 compared as right-hand operand,
+    3 both and a few views.  Nothing of this may change what follows."""
+    if not k:
+        return
+    if k in (1, 3):
+        hash(g)
+    if k in (2, 3):
+        c = g.copy()
+        c == g          # noqa: B015
+        g == c          # noqa: B015
+    if k == 3:
+        str(g)
+        list(g.connected_components())
+        for name, keys in (("atom_stereo_changes", list(g.atoms)[:3]),
+                           ("bond_stereo_changes",
+                            [frozenset(b) for b in list(g.bonds)[:3]])):
+            t = getattr(g, name, None)
+            if t is not None:
+                for key in keys:
+                    try:
+                        t[key]
+                    except KeyError:
+                        pass
+        for b in list(g.bonds)[:3]:
+            for nm in ("get_bond_stereo_change", "get_bond_stereo"):
+                f = getattr(g, nm, None)
+                if f is not None:
+                    f(tuple(b))
+
+
 def replay_model(cls, ops):
     m = Model(cls)
     for op in ops:
@@ -201,7 +255,7 @@ def replay_model(cls, ops):
 # read-only queries:  [name, *args]
 
 WHOLE = ("eq-self", "eq-copy", "hash", "str", "matrix", "components", "json",
-         "to_rdmol", "len", "stereo-valid")
+         "to_rdmol", "len", "stereo-valid", "reverse", "enantiomer")
 
 
 def run_query(g, q):
@@ -270,6 +324,18 @@ def run_query(g, q):
     elif name == "reactant":
         g.reactant()
         g.product()
+    elif name == "reverse":
+        g.reverse_reaction()
+    elif name == "enantiomer":
+        g.enantiomer()
+    elif name == "stereo_changes-index":
+        # plain indexing of the public tables (may raise KeyError)
+        for t, key in ((g.atom_stereo_changes, q[1]),
+                       (g.bond_stereo_changes, frozenset((q[1], q[2])))):
+            try:
+                t[key]
+            except KeyError:
+                pass
     elif name == "formed":
         g.get_formed_bonds()
         g.get_broken_bonds()
@@ -285,8 +351,12 @@ def query_available(cls, q):
     if name in ("get_atom_stereo_change", "get_bond_stereo_change",
                 "atom_stereo_changes-getitem"):
         return cls == "SCRG"
-    if name in ("active_atoms", "reactant", "formed"):
+    if name in ("active_atoms", "reactant", "formed", "reverse"):
         return cls in ("CRG", "SCRG")
+    if name == "enantiomer":
+        return cls in ("SMG", "SCRG")
+    if name == "stereo_changes-index":
+        return cls == "SCRG"
     return True
 
 
@@ -314,7 +384,10 @@ def query_must_not_raise(m: Model, q):
     if name in ("str", "matrix", "components", "len", "json", "formed",
                 "stereo-valid", "active_atoms"):
         return True
-    if name in ("eq-self", "eq-copy", "hash", "reactant"):
+    if name == "stereo_changes-index":
+        return True
+    if name in ("eq-self", "eq-copy", "hash", "reactant", "reverse",
+                "enantiomer"):
         from vp.model import validity_error
         return validity_error(m, strict=False) is None
     return False
@@ -458,6 +531,15 @@ def gen_op(tp, m: Model, ids, elements=(6, 8), allow_relabel=True,
     if name == "set_atom_change":
         c = tp.pick(atoms)
         roles = [r for r in ROLES if tp.chance(128)] or [tp.pick(ROLES)]
+        if m.atom_stereo and tp.chance(60):
+            # the atom's static descriptor once more, in every drawn role
+            c = tp.pick(list(m.atom_stereo))
+            d = m.atom_stereo[c]
+            return ["set_atom_change",
+                    {r: [d[0], list(d[1]), d[2]] for r in roles}]
+        if len(roles) >= 2 and tp.chance(50):
+            d = gen_atom_desc(tp, m, c)
+            return ["set_atom_change", {r: d for r in roles}]
         return ["set_atom_change",
                 {r: gen_atom_desc(tp, m, c) for r in roles}]
     if name == "del_atom_change":
@@ -505,12 +587,14 @@ def gen_query(tp, m: Model, ids):
              "neighbors-get", "eq-self", "eq-copy", "hash", "str", "matrix",
              "components", "json", "to_rdmol", "len"]
     if m.is_stereo:
-        names += ["get_atom_stereo", "get_bond_stereo", "stereo-valid"]
+        names += ["get_atom_stereo", "get_bond_stereo", "stereo-valid",
+                  "enantiomer"]
     if m.cls == "SCRG":
         names += ["get_atom_stereo_change", "get_bond_stereo_change",
-                  "atom_stereo_changes-getitem"]
+                  "atom_stereo_changes-getitem", "stereo_changes-index",
+                  "stereo_changes-index"]
     if m.is_reaction:
-        names += ["active_atoms", "reactant", "formed"]
+        names += ["active_atoms", "reactant", "formed", "reverse"]
     name = tp.pick(names)
     if name in ("has_atom", "get_atom_type", "get_atom_attributes",
                 "bonded_to", "node_connected_component", "get_atom_stereo",
@@ -520,7 +604,7 @@ def gen_query(tp, m: Model, ids):
     if name in ("get_atom_attribute", "get_atom_attributes-list"):
         return [name, a, tp.pick(ATTR_NAMES + ("atom_type",))]
     if name in ("has_bond", "get_bond_attributes", "get_bond_stereo",
-                "get_bond_stereo_change"):
+                "get_bond_stereo_change", "stereo_changes-index"):
         return [name, a, b]
     if name in ("get_bond_attribute", "get_bond_attributes-list"):
         return [name, a, b, tp.pick(ATTR_NAMES + ("reaction",))]
